@@ -1,0 +1,17 @@
+//go:build verif
+
+// Contracts for the gowp verifier (/verif). Comment-only file: compiled only with -tags verif and
+// contributes no code either way.
+
+package input
+
+//@ // ---- C04: every witness type the justice transaction can contain has a size bound (the breach arbitrator
+//@ // ---- silently leaves out an input whose bound errors), and the genuine "unknown type" stays an error
+//@ func (wt StandardWitnessType) SizeUpperBound
+//@   props C04
+//@   ensures (wt == CommitmentRevoke || wt == HtlcOfferedRevoke || wt == HtlcAcceptedRevoke || wt == HtlcSecondLevelRevoke ||
+//@            wt == TaprootHtlcSecondLevelRevoke || wt == TaprootHtlcAcceptedRevoke || wt == TaprootHtlcOfferedRevoke ||
+//@            wt == TaprootCommitmentRevoke || wt == TaprootCommitmentRevokeFinal ||
+//@            wt == CommitmentNoDelay || wt == CommitSpendNoDelayTweakless || wt == CommitmentToRemoteConfirmed ||
+//@            wt == TaprootRemoteCommitSpend || wt == TaprootRemoteCommitSpendFinal) ==> result2 == nil && result0 > 0
+//@   ensures wt > 100 ==> result2 != nil
